@@ -164,8 +164,36 @@ def c_argument_container_untouched():
     return None
 
 
+@spec_class(bootstrap=True)
+class Chain:
+    a: int = 1
+
+    @spec_property(invalidated_by=["a"])
+    def b(self):                    # not cached: never holds a value of its own
+        return self.a * 2
+
+    @spec_property(cache=True, invalidated_by=["b"])
+    def c(self):
+        return self.b + 1
+
+
+def c_chain_through_unset_link():
+    t = Chain()
+    if t.c != 3:
+        return "setup"
+    t.a = 5
+    if t.c != 11:
+        return "Chain: a -> b (uncached) -> c (cached): after t.a = 5, t.c is still %r (expected 11)" % t.c
+    t2 = Chain()
+    _ = t2.c
+    r = t2.with_a(7)
+    if r.c != 15:
+        return "Chain().with_a(7).c == %r (expected 15): the cached value travelled into the copy" % r.c
+    return None
+
+
 CHECKS = {"C01": [c_sharing, c_nested_failure, c_argument_container_untouched], "C06": [c_argument_container_untouched], "C02": [c_sharing], "C08": [c_sharing, c_reset_all], "C04": [c_nested_failure, c_failed_assignment_keeps_caches],
-          "C07": [c_nested_failure], "C05": [c_reset_all], "C11": [c_collection_invalidation, c_failed_assignment_keeps_caches]}
+          "C07": [c_nested_failure], "C05": [c_reset_all], "C11": [c_chain_through_unset_link, c_collection_invalidation, c_failed_assignment_keeps_caches]}
 
 REPLAY = '''#!/venv/bin/python
 # {prop} replay (additional corpus).  run: PYTHONPATH=/repo /venv/bin/python {path}      (exit 1 = the property is violated)
